@@ -1,6 +1,8 @@
 (* Proofs for property C12: checkpoint layout (Go vs tron vs Solidity, from the generated tables),
    separation of pre-images, the confirm acceptance rule and its history invariants. *)
-From Coq Require Import ZArith List Bool String Lia.
+From Coq Require Import ZArith List Bool Lia.
+From Coq Require String.
+Import String.StringSyntax.
 From FxV Require Import model.M_Abi model.M_CkDesc model.M_Confirm proofs.P_Abi gen.Gen_Checkpoint.
 Import ListNotations.
 Open Scope Z_scope.
@@ -49,7 +51,13 @@ Proof.
   - unfold be_val, zlen. simpl. lia.
   - apply Forall_app in F. destruct F as [F1 F2]. inversion F2; subst. unfold is_byte in *.
     rewrite be_val_snoc. unfold zlen in *. rewrite app_length, Nat2Z.inj_add. simpl length.
-    rewrite Z.pow_add_r by lia. specialize (IH F1). change (256 ^ Z.of_nat 1) with 256. nia.
+    rewrite Z.pow_add_r by lia. specialize (IH F1). change (256 ^ Z.of_nat 1) with 256.
+    set (P := 256 ^ Z.of_nat (length l)) in *. lia.
+Qed.
+
+Lemma firstn_In {A} : forall n (l : list A) x, In x (firstn n l) -> In x l.
+Proof.
+  induction n; intros [|y l] x H; simpl in *; try contradiction. destruct H; auto.
 Qed.
 
 Lemma b32_range : forall s, Forall is_byte s -> in_range two256 (b32_of_bytes s).
